@@ -944,7 +944,7 @@ def run(tier="quick"):
     chk.count("done_functions", len(dones), floor=14)
     chk.count("del_functions", len(dels), floor=14)
     chk.count("fresh_field_stores", n2, floor=10)
-    chk.count("node_delete_sites_in_remove", n5, floor=6)
+    chk.count("node_delete_sites_in_remove", n5, floor=2)      # at least one site: helper extraction legitimately merges the six of the reviewed tree
     chk.count("functions_leak_checked", nfun, floor=400)
     chk.count("object_setters", n8, floor=10)
     chk.count("init_functions", len(inits), floor=14)
